@@ -83,7 +83,14 @@ def guarded(fn, *a):
         tb = traceback.format_exc()
         frames = [ln for ln in tb.splitlines()
                   if ln.strip().startswith('File ') and 'in on_alarm' not in ln]
-        inner = frames[-1] if frames else ''
+        # innermost frame that belongs to the harness or to the
+        # implementation (library frames below it - select, accept, deque -
+        # are whoever called them)
+        inner = ''
+        for ln in reversed(frames):
+            if common.REPO in ln or common.VERIF in ln:
+                inner = ln
+                break
         in_impl = common.REPO in inner
         return ('hang', tb, in_impl)
     finally:
@@ -141,6 +148,8 @@ def run_shards(worker, shards, report, procs=None, chunksize=1):
             if in_impl:
                 # the implementation loops or blocks: that is an execution
                 # that never completes, not a harness problem
+                report.add('evaluations')
+                report.add('distinct_nontrivial')
                 report.violation(
                     'call-never-returned',
                     f'shard {shard}: a call into the implementation did not '
